@@ -427,6 +427,7 @@ func (u *Unit) storeField(st *State, ref Val, owner types.Type, f *types.Var, v 
 	}
 	u.checkAssigns(st, key, ref, n)
 	st.heap[key] = "(store " + h + " " + ref.T + " " + v.T + ")"
+	u.bumpEpoch(st)
 }
 
 // storeDeref: *p = v
